@@ -24,7 +24,7 @@ LEVEL = 'model_checking'
 RULE = ('For every (type, value) of a reduced universe (REC stride, OF, CH, NEST): ALL construction histories from the '
         'alphabet {assign components in every order by name / by position, append SET OF / SEQUENCE OF members (SET OF: '
         'every order), DEFAULT component assigned explicitly or left out, clone(cloneValueFlag=True) at the end, build by '
-        'decoding each BER form with <= 1 departure from DER, and read-only operations (DER/CER/BER encode, prettyPrint, '
+        'decoding each BER form with <= 1 departure from DER, REAL values re-scaled or carrying the BER encoding-base hint, and read-only operations (DER/CER/BER encode, prettyPrint, '
         'str, repr, keys/values/items, len, in, ==, isValue, isInconsistent, getComponentByPosition(i) for EVERY i incl. '
         'unset OPTIONAL and non-selected CHOICE alternatives, obj[name]) inserted singly at every position of every route '
         'and pairwise after construction}. Oracle: every complete history yields the same DER and the same CER bytes as '
@@ -144,6 +144,10 @@ def routes(T, v):
         yield 'scaled-up2', [('real', (m * b * b, b, e - 2))]
         if m % b == 0:
             yield 'scaled-down', [('real', (m // b, b, e + 1))]
+        if b == 2:
+            # the documented BER-only encoding base hint carried by the value object
+            yield 'hint-base8', [('scalar',), ('hint', 8)]
+            yield 'hint-base16', [('scalar',), ('hint', 16)]
         if b == 10:
             from fractions import Fraction
             fr = Fraction(m) * Fraction(10) ** e
@@ -198,6 +202,8 @@ def execute(T, v, spec, steps, reads_at=None):
             obj = B.build(T, v, spec)
         elif st[0] == 'real':
             obj = spec.clone(st[1])
+        elif st[0] == 'hint':
+            obj.binEncBase = st[1]
     for op in reads_at.get(len(steps), ()):
         do_read(obj, op, T)
         nops += 1
